@@ -917,7 +917,7 @@ fn c04(tier: Tier, seed: u64) -> i32 {
         };
         PosteriorScenario { preset, target, n_chains: 32, seed: r.next_u64(), n_truth: 2_000_000 }
     });
-    let n2 = ctx.n(32, 800);
+    let n2 = ctx.n(32, 300);
     ctx.run_batch("stationarity", "invariance of one NUTS transition (direct drive, fixed transformation and step size): N independent particles start from exact draws of the target and make k transitions; their distribution (every coordinate and the log density, 5 quantile levels) must still be the target's, compared with an independent reference sample by exact binomial z statistics (critical 6); valid whatever the mixing speed", n2, |rs, i| {
         gen_stationary(rs, "C04", i, quick)
     });
@@ -983,7 +983,7 @@ fn c01(tier: Tier, seed: u64) -> i32 {
     let mut ctx = Ctx::new("C01", tier, seed);
     let n = ctx.n(4000, 400_000);
     ctx.run_batch("scripted_transitions", "scenario = target (Gaussians, Student-t, banana; dimension 1..8) x explicit diagonal or low-rank transformation (rank 0..d, random orthonormal eigenvectors) x Euclidean / ExactNormal x step size x maxdepth 1..6 x start x scripted momentum x scripted raw direction draws (incl. boundary values) x scripted selection thresholds. R1: from every state of the final block the real nuts::draw is re-run with the mirrored doubling choices and must visit the same states with the same depth and stopping reason; R2: with the same scripted thresholds the implementation selects the index the reference selection law (min(1, w_new/w_old) for the tree holding the start, w_new/(w_old+w_new) in sub-trees) selects; the sequence of random draws is the predicted one; R3: direction = sign bit of the raw uniform u32; tree building equals RefNuts (Appendix A). Divergent trajectories are outside the quantifier and skipped; near-ties skipped and counted. Non-trivial = depth >= 2", n, |rs, _| gen_nuts_scenario(rs));
-    let n2 = ctx.n(48, 2000);
+    let n2 = ctx.n(48, 400);
     let quick = tier == Tier::Quick;
     ctx.run_batch("stationarity", "invariance, statistically: N independent particles start from exact i.i.d. draws of the target (Gaussians incl. correlated, Student-t, log-gamma, banana; dimension 1..4) and make 1/3/6 transitions of the real nuts::draw with a fixed transformation (identity, mismatched diagonal, low-rank), step size 0.1..1.2, maxdepth 1..6, default tree options; the particles must still be distributed as the target: per coordinate and for the log density the fraction below the 5/25/50/75/95% quantiles of an independent reference sample is binomial (z statistic, critical 6). Holds for any reversible kernel whatever its mixing speed; a biased selection, direction or acceptance rule shows as a drift", n2, |rs, i| gen_stationary(rs, "C01", i, quick));
     ctx.finish("exploration", components_direct_drive(), vec![
